@@ -466,7 +466,15 @@ class Array:
             except StopIteration:  # empty iterable, nothing to append
                 return
             array = self._checkarrayforappend(firstarray)
-            array.tofile(str(self._datapath))
+            try:
+                array.tofile(str(self._datapath))
+            except Exception as exception:
+                # nothing was appended: restore the empty data file, so that
+                # it remains consistent with the array description
+                os.truncate(self._datapath, 0)
+                raise AppendDataError(
+                    f"{exception}\nAppending of data did not succeed. Shape "
+                    f"of array still is {self._shape}.")
             self._update_len(lenincrease=array.shape[0])
         with self._open_array() as (v, fd):
             oldshape = v.shape
